@@ -72,7 +72,7 @@ RULES = [
     ("R10", re.compile(r'\brand::rng\(\)'), 'rand_rng()', "`rand::rng()` -> `rand_rng()` (prelude stub for the thread generator)"),
     ("R13", re.compile(r'\bif (\w+\.elapsed\(\)(?:\.as_secs_f64\(\))?) > ([\w.]+) \{'), r'let elapsed__v = \1; if elapsed__v > \2 {', "`if X.elapsed() > T {` -> `let elapsed__v = X.elapsed(); if elapsed__v > T {` (names the clock reading)"),
     ("R14", None, None, "`S.sample_goal(..).unwrap()` / `S.sample_uniform(..).unwrap()` -> `{ let sample__r = S.sample_…(..); proof { assert(sample__r is Ok); } sample__r.unwrap() }` (let-binding plus a named ghost obligation)"),
-    ("R17", re.compile(r'\bfn (\w+)\(([^)]*?)\b(\w+): &mut impl ([\w:]+)([^)]*)\)'), r'fn \1<R: \4>(\2\3: &mut R\5)', "`fn f(.., r: &mut impl Tr, ..)` -> `fn f<R: Tr>(.., r: &mut R, ..)` (argument-position impl Trait as a named type parameter)"),
+    ("R17", None, None, "`fn f(.., r: &mut impl Tr, ..)` -> `fn f<R: Tr>(.., r: &mut R, ..)` (argument-position impl Trait as a named type parameter)"),
     ("R11", re.compile(r'\bvec!\[false; ([^\]]+)\]'), r'vec_of_false(\1)', "`vec![false; n]` -> `vec_of_false(n)`"),
 ]
 
@@ -453,7 +453,16 @@ def build_unit(unit):
         # rewrite rules (line preserving)
         lines = [ln for _, ln in keep]
         body = "".join(lines)
+        pre = getattr(unit, 'PREPROCESS', {}).get(rel)
+        if pre:
+            body2 = pre(body)
+            if body2.count('\n') != body.count('\n'):
+                raise ExtractError("unit preprocessing of %s is not line preserving" % rel)
+            body = body2
         body, c9 = apply_r9(body)
+        # R17 on the whole text (a signature may span several lines; `[^)]` also matches newlines: line preserving)
+        body, n17 = re.subn(r'\bfn (\w+)\(([^)]*?)\b(\w+): &mut impl ([\w:]+)([^)]*)\)', r'fn \1<R: \4>(\2\3: &mut R\5)', body)
+        c9["R17"] = n17
         lines2 = body.splitlines(True)
         assert len(lines2) == len(lines), "R9 must preserve line count"
         lines2, hits = apply_rewrites(lines2, {})
